@@ -12,6 +12,48 @@ from .discharge import check_one, canary
 from .contract import REGISTRY
 
 
+def symbols(f, cache={}):
+    k = f.get_id()
+    if k in cache:
+        return cache[k]
+    out, seen, stack = set(), set(), [f]
+    while stack:
+        x = stack.pop()
+        if x.get_id() in seen:
+            continue
+        seen.add(x.get_id())
+        if z3.is_quantifier(x):
+            stack.append(x.body())
+        elif z3.is_app(x):
+            d = x.decl()
+            if d.kind() == z3.Z3_OP_UNINTERPRETED:
+                out.add(d.name())
+            stack.extend(x.children())
+    cache[k] = out
+    return out
+
+
+def relevant(hyps, goal, depth=2):
+    """Syntactic relevance filter (dropping hypotheses is always sound): hypotheses reachable from the goal
+    through shared uncommon symbols, `depth` rounds."""
+    hs = [(h, symbols(h)) for h in hyps]
+    count = {}
+    for _, ss in hs:
+        for s_ in ss:
+            count[s_] = count.get(s_, 0) + 1
+    common = {s_ for s_, c in count.items() if c > max(6, 0.3 * len(hs))}
+    want = set(symbols(goal))
+    keep = set()
+    for _ in range(depth):
+        new = set()
+        for i, (h, ss) in enumerate(hs):
+            if i not in keep and (ss & want) - common:
+                keep.add(i)
+                new |= ss
+        want |= (new - common)
+    return [h for i, (h, _) in enumerate(hs) if i in keep]
+
+
 def verify(qual, timeout_ms=20000, verbose=False):
     c = REGISTRY[qual]
     out = {'qual': qual, 'obligations': [], 'status': 'ok', 'assumptions': [], 'sha256': None}
@@ -56,6 +98,17 @@ def verify(qual, timeout_ms=20000, verbose=False):
                 secs += dt
                 if v == 'sat':
                     v = 'unknown'   # a model of a weakened VC means nothing
+            if v != 'proved':
+                # quick attempt with everything (most obligations need < 1 s)
+                v, m, dt, w = check_one(o.hyps, o.goal, bg, 12000, quick=True)
+                secs += dt
+            if v != 'proved' and len(o.hyps) > 24:
+                hy = relevant(o.hyps, o.goal)
+                if len(hy) < len(o.hyps):
+                    v, m, dt, w = check_one(hy, o.goal, bg, min(timeout_ms, 6000))
+                    secs += dt
+                    if v == 'sat':
+                        v = 'unknown'
             if v != 'proved':
                 v, m, dt, w = check_one(o.hyps, o.goal, bg, timeout_ms)
                 secs += dt
